@@ -269,7 +269,8 @@ def run(c: sym.Ctx, spec: Dict[str, Any], n_msgs: int = 1) -> Lab:
         labels: Dict[str, Any] = {"user": f"L{i}"}
         if tl[i]:
             labels["timeout"] = 5
-        data = encode(broker, "t", tid_of(i), [i], labels)
+        # type information only for some labels (as when a pre_send middleware or a foreign producer added the others)
+        data = encode(broker, "t", tid_of(i), [i], labels, labels_types={"user": 3} if spec.get("partial_types", True) else None)
         msgs.append(ackable(lab, i, data, async_ack, gate_ack=n_msgs > 1) if spec.get("ackable", True) else data)
 
     async def main() -> None:
